@@ -105,7 +105,8 @@ def _init():
 def asc(x):
     """ASCII-only rendering (lone surrogates and controls cannot be printed)"""
     if isinstance(x, str):
-        return x.encode('ascii', 'backslashreplace').decode('ascii')
+        x = x.encode('ascii', 'backslashreplace').decode('ascii')
+        return ''.join(c if ' ' <= c <= '~' else '\\x%02x' % ord(c) for c in x)
     if isinstance(x, (list, tuple)):
         return [asc(v) for v in x]
     if isinstance(x, dict):
@@ -231,8 +232,15 @@ def examine(s):
         ('ctx-list', 'a.' + e + ', c', [want_shape(tag='a', classes=[sp]), want_shape(tag='c')], ['a0', 'c0', 'c1']),
         ('ctx-attr-flag', '[a=' + e + ' s].' + e, [want_shape(attrs=[sp], classes=[sp])], ['both']),
     ]
+    failed_ident = False
     for kind, css, want, hits in probes:
         basic = kind in ('id', 'class', 'attr')
+        if failed_ident and 'attr' in kind and len(s) > 8:
+            # When the parser rejects escape(s) as an identifier, the attribute pattern (IDENTIFIER+ followed by
+            # "]") backtracks exponentially in the length of s before failing (finding F07, property C07).  The
+            # violation for this s is already recorded from '#' / '.'; do not hang the check on long strings.
+            ev['clean'] = ev['sel'] = False
+            continue
         try:
             c = sv.compile(css)
             ev['calls'] += 1
@@ -241,6 +249,8 @@ def examine(s):
             pr.append((kind + ':compile-raises', asc(css), msg))
             if basic and not ev['exc']:
                 ev['exc'] = 'compile(%s): %s' % (kind, msg)
+            if kind in ('id', 'class'):
+                failed_ident = True
             ev['clean'] = ev['sel'] = False
             continue
         got = [shape(x) for x in c.selectors]
@@ -340,7 +350,12 @@ class B1:
         chk = self.chk
         per_group = {}
         for k, p in enumerate(self.pending):
-            out, drift, ncases, ncalls, samp = p.get()
+            try:
+                out, drift, ncases, ncalls, samp = p.get(timeout=900)
+            except mp.TimeoutError:
+                chk.machinery('%s: a replay worker did not finish in 900 s' % self.label)
+                self.pool.terminate()
+                return
             chk.count(ncalls, traces=ncases)
             chk.add_distinct(ncases)
             if samp and k % max(1, len(self.pending) // 4) == 0:
@@ -469,7 +484,7 @@ def _validate_one(args):
 
 def trace_part(chk, tier, tmpd):
     rng = random.Random(common.SEED * 7919 + 10)
-    n = 4000 if tier == 'quick' else 60000
+    n = 3000 if tier == 'quick' else 60000
     jobs = [('e%d' % k, rand_ident(rng)) for k in range(n)]
     procs = 16
     ctx = mp.get_context('fork')
@@ -544,6 +559,11 @@ def main(tier):
         'probe documents are built through the bs4 API (html.parser soup, new_tag, attrs[...] = value)',
         'code points of one class (see CLASSES in checks/c10.py) behave alike; three members per class are run',
     ]
+    rdir = os.path.join(common.VERIF, 'replays', 'C10')      # replay files of earlier runs are stale
+    if os.path.isdir(rdir):
+        for f in os.listdir(rdir):
+            if f.endswith('.json'):
+                os.remove(os.path.join(rdir, f))
     tmpd = tempfile.mkdtemp(prefix='verif_c10_')
     try:
         alt = os.path.join(tmpd, 'alt.ndjson')
